@@ -70,6 +70,13 @@ def obligations(chk, prop, only_core=False):
         def run(ex_, k=k, E=E, M=M):
             ex_.env['inner_pending'] = k
             ex_.add(E.well_formed(ix))
+            # the class of the item is fixed per path whether or not the code looks at it (a rewrite that does not tell
+            # background steps from own steps still has to be judged on both)
+            S_ = E.sc
+            if ex_.branch(z3.And(E.is_scenario(ix), S_.is_step_ev(ix), S_.step == bv(ix.Step['Skipped']))):
+                ex_.branch(E.scenario_in_rule(ix))
+                ex_.branch(S_.sc == bv(ix.Sc['Background']))
+                ex_.branch(S_.ret == bv(1))
             sv = Adt('fail_on_skipped::FailOnSkipped<Wr, F>', {(None, fos_fields.index('writer')): Lazy('Wr', 'inner'),
                                                               (None, fos_fields.index('should_fail')): Lazy('F', 'pred')}, None, None)
             cell = Cell(sv, name='self')
@@ -208,6 +215,11 @@ def obligations(chk, prop, only_core=False):
                 o5.detail = 'predicate arguments: feature ok=%s rule ok=%s scenario ok=%s' % (okf, okr, oks)
 
         ex.explore(run, on_end)
+    viol = [o_ for n_, o_ in obs.items() if o_.verdict == 'violated' and n_ in (
+        'skipped-becomes-failed-iff-predicate', 'skipped-step-mapped-in-place', 'predicate-evaluated-once-on-own-feature-rule-scenario',
+        'failed-event-is-not-found-without-captures-location-world', 'other-events-untouched', 'inner-writer-gets-exactly-one-item')]
+    if viol:
+        confirm_mapping(chk, viol, prop)
     w = chk.add(Obligation('%s.fail_on_skipped.witness' % prop, 'exploration'))
     w.kind = 'witness'
     need = {'skipped-becomes-failed-iff-predicate', 'other-events-untouched', 'failed-event-is-not-found-without-captures-location-world'}
@@ -256,3 +268,38 @@ def confirm_default_predicate(chk, o, prop):
     else:
         o.verdict = 'inconclusive'
         o.detail += ' | native replay DISAGREES with the encoder (real output follows the specification)'
+
+
+def confirm_mapping(chk, viol, prop):
+    """native: skipped background / own steps, inside and outside a rule, with and without retries, through the real
+    `fail_on_skipped()` wrapper (default predicate, no @allow.skipped): each comes out as a Failed(NotFound) event of the SAME
+    kind, place and retries; with @allow.skipped it stays Skipped; every other event passes through unchanged"""
+    import os
+    from checks import replay
+    d = os.path.join(common.EVID, 'replay')
+    os.makedirs(d, exist_ok=True)
+    devs = []
+    k = 0
+    for rule in (0, 1):
+        for allow in (False, True):
+            for r in ('r=-', 'r=0/1'):
+                lines = ['mode events', 'wrapper fail_on_skipped', 'bg 1', 'own 1', 'rule %d' % rule] + (['stags allow.skipped'] if allow else [])
+                lines += ['ev started ' + r, 'ev bg 0 started ' + r, 'ev bg 0 skipped ' + r, 'ev step 0 started ' + r, 'ev step 0 skipped ' + r, 'ev step 0 passed ' + r, 'ev finished ' + r]
+                path = os.path.join(d, '%s-fail-on-skipped-%d.script' % (prop, k))
+                k += 1
+                res, out = replay.run_script('\n'.join(lines) + '\n', path)
+                chk.replays += 1
+                got = [ln[4:].split(':scenario[s]:', 1)[-1] for ln in out.splitlines() if ln.startswith('LOG ')]
+                sk = 'skipped' if allow else 'failed:notfound'
+                want = ['started ' + r, 'bg[bg 0]:started ' + r, 'bg[bg 0]:%s %s' % (sk, r), 'step[own 0]:started ' + r, 'step[own 0]:%s %s' % (sk, r), 'step[own 0]:passed ' + r, 'finished ' + r]
+                if res is not None and got != want:
+                    devs.append((path, 'scenario %s, %s, retries %s: the inner writer received %s, expected %s' % ('in a rule' if rule else 'at top level', '@allow.skipped' if allow else 'not tagged', r[2:], got, want)))
+    for o in viol:
+        if devs:
+            if devs[0][0] not in chk.replay_files:
+                chk.replay_files.append(devs[0][0])
+            o.replay = devs[0][0]
+            o.detail += ' | reproduced natively through the real fail_on_skipped() wrapper: %s' % devs[0][1]
+        else:
+            o.verdict = 'inconclusive'
+            o.detail += ' | not reproduced natively (16 event sequences through the real wrapper come out as specified)'
